@@ -326,12 +326,15 @@ inductive Getter where
   | str | int | bool | slice | mapSS
   deriving DecidableEq, Repr, Inhabited
 
-def readField (c : Cfg) (root : List String) (suffix : String) : Getter → FieldVal
+/-- `root`: the module's configuration root as the handlers build it (`<kind>.<name>`, split at dots);
+    `raw`: the module's own table (`[kind, name]`, the name as ONE key) — since the repair of D20 the
+    extras table of a notifier is read from there, not through the dotted key `<root>.extras` -/
+def readField (c : Cfg) (root raw : List String) (suffix : String) : Getter → FieldVal
   | .str => .s (c.vString (root ++ [suffix]))
   | .int => .i (c.vInt (root ++ [suffix]))
   | .bool => .b (c.vBool (root ++ [suffix]))
   | .slice => .l (c.vSlice (root ++ [suffix]))
-  | .mapSS => .m (c.vLeaves (root ++ [suffix]))
+  | .mapSS => .m (c.leavesUnder (raw ++ [suffix]))
 
 def storageFields : List (String × String × Getter) :=
   [("class-name", "class-name", .str), ("intervals", "intervals", .int), ("min-distance", "min-distance", .int),
@@ -369,8 +372,8 @@ def notifierEmail : List (String × String × Getter) :=
     ("username", "username", .str), ("from", "from", .str), ("to", "to", .str), ("extra-ca", "extra-ca", .str),
     ("noverify", "noverify", .str)]
 
-def readFields (c : Cfg) (root : List String) (fs : List (String × String × Getter)) : List (String × FieldVal) :=
-  fs.map fun (j, suffix, g) => (j, readField c root suffix g)
+def readFields (c : Cfg) (root raw : List String) (fs : List (String × String × Getter)) : List (String × FieldVal) :=
+  fs.map fun (j, suffix, g) => (j, readField c root raw suffix g)
 
 /-- `getClientProfile` with its TLS and SASL sub-profiles, flattened with dotted JSON names -/
 def clientProfile (c : Cfg) (name : String) : List (String × FieldVal) :=
@@ -395,15 +398,15 @@ def clientProfile (c : Cfg) (name : String) : List (String × FieldVal) :=
 def moduleConfigured (c : Cfg) (kind name : String) : Bool := (c.vChildren [kind]).contains name.toLower
 
 /-- the body of a module detail handler: the fields read under configuration root `root` -/
-def moduleDetailAt (c : Cfg) (root : List String) (fs : List (String × String × Getter)) (withProfile : Bool) : Resp :=
-  ok (.module (readFields c root fs ++
+def moduleDetailAt (c : Cfg) (root raw : List String) (fs : List (String × String × Getter)) (withProfile : Bool) : Resp :=
+  ok (.module (readFields c root raw fs ++
     (if withProfile then clientProfile c (c.vString (root ++ ["client-profile"])) else [])))
 
 /-- a module detail handler: 404 unless the name is a configured module of that kind; then
     `configRoot := "<kind>." + name` -/
 def moduleDetail (c : Cfg) (kind name : String) (fs : List (String × String × Getter)) (withProfile : Bool) : Resp :=
   if !moduleConfigured c kind name then notFoundErr
-  else moduleDetailAt c (kind :: keyPath name) fs withProfile
+  else moduleDetailAt c (kind :: keyPath name) [kind, name.toLower] fs withProfile
 
 def moduleList (c : Cfg) (kind : String) : Resp := ok (.moduleList kind (c.vChildren [kind]))
 
@@ -445,17 +448,17 @@ def H.ofName (h : String) : H :=
   else if h == "handlePrometheusMetrics" then .metrics
   else .unknown
 
-def notifierDetailAt (c : Cfg) (root : List String) : Resp :=
+def notifierDetailAt (c : Cfg) (root raw : List String) : Resp :=
   let cls := c.vString (root ++ ["class-name"])
-  if cls == "http" then moduleDetailAt c root notifierHTTP false
-  else if cls == "email" then moduleDetailAt c root notifierEmail false
-  else if cls == "slack" then moduleDetailAt c root notifierSlack false
-  else if cls == "null" then moduleDetailAt c root notifierCommon false
+  if cls == "http" then moduleDetailAt c root raw notifierHTTP false
+  else if cls == "email" then moduleDetailAt c root raw notifierEmail false
+  else if cls == "slack" then moduleDetailAt c root raw notifierSlack false
+  else if cls == "null" then moduleDetailAt c root raw notifierCommon false
   else { code := 200, ctype := .none, err := none, payload := .other "empty" }
 
 def notifierDetailResp (c : Cfg) (name : String) : Resp :=
   if !moduleConfigured c "notifier" name then notFoundErr
-  else notifierDetailAt c ("notifier" :: keyPath name)
+  else notifierDetailAt c ("notifier" :: keyPath name) ["notifier", name.toLower]
 
 def handleH {W : Type} (be : Backend W) (w : W) (ps : Params) : H → W × Resp
   | .clusterList => (w, ok (.names "clusters" (be.clusters w)))
